@@ -1151,6 +1151,11 @@ pub fn wal_path(options: &DbOptions, n: u64) -> std::path::PathBuf {
     crate::file_names::FileNameHandler::new(options.db_path().to_string()).get_wal_file_path(n)
 }
 
+/// Path of manifest `n` of the database described by `options`.
+pub fn manifest_path(options: &DbOptions, n: u64) -> std::path::PathBuf {
+    crate::file_names::FileNameHandler::new(options.db_path().to_string()).get_manifest_file_path(n)
+}
+
 /// Path of temporary file `n` of the database described by `options`.
 pub fn temp_path(options: &DbOptions, n: u64) -> std::path::PathBuf {
     crate::file_names::FileNameHandler::new(options.db_path().to_string()).get_temp_file_path(n)
